@@ -432,7 +432,10 @@ class SessionHandler:
                     SessionHandler.id += 1
                     return
 
-            SessionHandler.reset()
+            #: A different identity still draws from the same process-wide
+            #: counter: restarting it would hand out low values a second time
+            #: within the same clock second.
+            SessionHandler.id += 1
             return
         
         SessionHandler.id += 1
